@@ -38,7 +38,10 @@ def gen_cases(tier, seed):
             for scale in ([1] if (tier == 'quick' and not isinstance(v, str) and v > 10) else
                           ([1, 2, 5] if (isinstance(v, str) or v <= 3 or tier == 'thorough') else [1, 2])):
                 cases.append({'kind': 'iter', 'version': v, 'seed': rng.randrange(1 << 30), 'border': border, 'scale': scale})
-    for bad in ({'border': -1}, {'border': 1.5}, {'border': -0.5}, {'scale': 0}, {'scale': -1}, {'scale': 0.5}, {'scale': -2.5}):
+    for bad in ({'border': -1}, {'border': 1.5}, {'border': -0.5}, {'scale': 0}, {'scale': -1}, {'scale': 0.5}, {'scale': -2.5},
+                # non-integral / negative borders that are numbers but not floats
+                {'border': {'$frac': [5, 2]}}, {'border': {'$dec': '2.5'}}, {'border': {'$frac': [-1, 2]}}, {'border': {'$dec': '-1'}},
+                {'border': {'$frac': [1, 3]}}, {'border': {'$dec': '0.999'}}, {'scale': {'$frac': [-1, 2]}}, {'scale': {'$dec': '0'}}):
         for verbose in (False, True):
             cases.append({'kind': 'iter-bad', 'version': rng.choice([1, 'M2', 7]), 'seed': 1, 'kw': dict(bad), 'verbose': verbose})
     n = 600 if tier == 'quick' else 15000
@@ -79,7 +82,14 @@ def gen_cases(tier, seed):
                 else:
                     kw[k] = pool.pop() if pool else rng.choice(POOL)
             tag = 'multi'
-        if style >= 0.35 and rng.random() < 0.3:
+        if kind == 'png' and style >= 0.35 and rng.random() < 0.12:
+            # two module types with the same RGB whose alpha values compare equal in Python but mean different things:
+            # integer 1 (of 255) and float 1.0 (opaque)
+            rgb = rng.choice([(0, 0, 0), (255, 255, 255), (200, 10, 30), (1, 2, 3)])
+            k1, k2 = rng.sample([k for k in keys if k not in ('quiet_zone',)], 2)
+            kw[k1], kw[k2] = rgb + (1,), rgb + (1.0,)
+            tag = 'alpha-twins'
+        if style >= 0.35 and rng.random() < 0.3 and tag != 'alpha-twins':
             # an exact number of distinct colours: the palette / bit depth boundaries of the PNG writer (2|3, 4|5, 15)
             want_n = rng.choice([3, 4, 5, 8, 15 if (not isinstance(v, str) and v >= 7) else 9])
             cols = list(POOL[:])
@@ -226,6 +236,17 @@ def colour_spec(kw, t, defaults):
     return outoracle.colour_map(kw, *defaults)[t]
 
 
+def real_number(v):
+    """JSON-able stand-ins for exact non-float numbers."""
+    if isinstance(v, dict) and '$frac' in v:
+        from fractions import Fraction
+        return Fraction(*v['$frac'])
+    if isinstance(v, dict) and '$dec' in v:
+        from decimal import Decimal
+        return Decimal(v['$dec'])
+    return v
+
+
 def run_cases(cases, rec, tier='quick', seed='0'):
     import segno
     monitors.start_reach()
@@ -236,6 +257,7 @@ def run_cases(cases, rec, tier='quick', seed='0'):
         if case['kind'] == 'iter':
             check_iter(case, q, rec)
         elif case['kind'] == 'iter-bad':
+            case = dict(case, kw={k: real_number(v) for k, v in case['kw'].items()})
             try:
                 list(q.matrix_iter(verbose=case['verbose'], **case['kw']))
                 rec.deviation('C11', 'invalid-iter-argument-accepted', {'kw': case['kw'], 'verbose': case['verbose']})
